@@ -128,6 +128,11 @@ func suiteCuckoo(c *Ctx) {
 	cuckooFullRollback(c, 12, 13, true)
 	cuckooFullRollback(c, 12, 13, false)
 	cuckooFullRollback(c, 16, 11, true)
+	// more slots per bucket than buckets (slot numbers and bucket numbers must not be confused)
+	for _, g := range [][2]uint64{{2, 4}, {2, 8}, {4, 8}, {3, 7}} {
+		cuckooFullRollback(c, g[0], g[1], true)
+		cuckooFullRollback(c, g[0], g[1], false)
+	}
 	cuckooInvalidFpProbe(c)
 	cuckooHugeBucket(c)
 }
@@ -311,9 +316,11 @@ func cuckooCase(c *Ctx, cfg cuckooCfg) {
 			if doc, err := h.Export(); err == nil {
 				var nh cuckooHandle
 				var ierr error
+				// the previous tenant's geometry: prime, or a power of two larger or smaller than ours
+				td := [][2]uint64{{3, 3}, {16, 2}, {2, 4}, {64, 1}, {1, 5}}[c.rng.Intn(5)]
 				res := safely(func() {
 					if _, isRedis := h.(cuckooRedis); isRedis {
-						f2, e2 := gostatix.NewCuckooFilterRedisWithRetries(3, 3, 2, 7)
+						f2, e2 := gostatix.NewCuckooFilterRedisWithRetries(td[0], td[1], 2, 7)
 						if e2 != nil {
 							ierr = e2
 							return
@@ -322,8 +329,9 @@ func cuckooCase(c *Ctx, cfg cuckooCfg) {
 						ierr = f2.Import(doc, true)
 						nh = cuckooRedis{f2}
 					} else {
-						f2 := gostatix.NewCuckooFilterWithRetries(3, 3, 2, 7)
+						f2 := gostatix.NewCuckooFilterWithRetries(td[0], td[1], 2, 7)
 						f2.Insert([]byte("previous tenant"), false)
+						f2.Lookup([]byte("previous tenant"))
 						ierr = f2.Import(doc)
 						nh = cuckooMem{f2}
 					}
